@@ -167,6 +167,10 @@ func TestGovcBoundedC16Positions(t *testing.T) {
 		{"leaf x { ", "/* never closed\n}\n", 0},
 		{"leaf x { description ", "\"bad \\q escape\"; }", 5},
 		{"leaf x { description \"line one\n   ", "and \\", 4},
+		// a string where a keyword must stand / where ; or { must stand: the string is a
+		// concatenation, the position is that of its first piece
+		{"leaf x { ", "\"de\" + \"scr\"\n + 'iption' y; }", 0},
+		{"leaf x { description a ", "'b'\t+ \"c\" + 'd'; }", 0},
 	}
 	for _, lead := range []string{"", "\n", "\t", "é ü; /* c */ ", "// c\r\n\t\t", "x 'a\nb'; "} {
 		for _, f := range faults {
@@ -234,5 +238,5 @@ func TestGovcBoundedC16Positions(t *testing.T) {
 			fmt.Printf("GOVC-FAIL name=c16-semantic-positions %q starts at %s, the errors say %q\n", sf.stmt, wantLoc, msgs)
 		}
 	}
-	fmt.Printf("GOVC-BOUNDED name=c16-positions-vs-generator bound=%d_generated_texts_(seed_%d)_+_30_lexical_and_7_semantic_faults evaluations=%d distinct=%d\n", texts, seed, evals, stmts)
+	fmt.Printf("GOVC-BOUNDED name=c16-positions-vs-generator bound=%d_generated_texts_(seed_%d)_+_42_lexical_and_7_semantic_faults evaluations=%d distinct=%d\n", texts, seed, evals, stmts)
 }
